@@ -359,6 +359,171 @@ pub fn one_source(rep: &mut Report, specs: &mut Vec<SpecReq>, label: &str, src: 
     }
 }
 
+
+// ------------------------------------------------------------------ 2b. pass-directed templates
+/// Sources shaped after what each optimiser pass looks for, with the interesting operands as
+/// PARAMETERS (so nothing is folded away before the pass runs):
+///  * `curry`: a two-argument builtin applied to the same constant at three or more sites, the
+///    constant on either side (what `builtin_curry_reducer` hoists) — every non-commutative builtin;
+///  * `cast`: a Data constant at a boundary value cast back with `expect` (what `cast_data_reducer`
+///    folds), the constant chosen by a parameter so that both branches survive;
+///  * `once`: a value used exactly once under a delayed branch / lambda (what the inliner moves).
+fn templates() -> Vec<(String, String, Vec<Vec<PlutusData>>)> {
+    use pallas_primitives::alonzo::{BigInt as PBigInt, PlutusData as PD};
+    fn int(n: i128) -> PD {
+        PD::BigInt(PBigInt::Int((n as i64).into()))
+    }
+    fn big(s: &str) -> PD {
+        // through the real conversion used by the toolchain
+        let n: num_bigint::BigInt = s.parse().unwrap();
+        PD::BigInt(uplc::machine::value::to_pallas_bigint(&n))
+    }
+    fn bytes(b: &[u8]) -> PD {
+        PD::BoundedBytes(b.to_vec().into())
+    }
+    let mut out = vec![];
+    let int_args: Vec<Vec<PD>> = vec![
+        vec![int(9), int(10)],
+        vec![int(-7), int(2)],
+        vec![int(7), int(-2)],
+        vec![int(0), int(5)],
+        vec![int(1), int(1)],
+        vec![big("18446744073709551616"), int(-3)],
+        vec![int(-1), big("-18446744073709551617")],
+    ];
+    let int_ops_int = ["divide_integer", "mod_integer", "quotient_integer", "remainder_integer", "subtract_integer", "add_integer", "multiply_integer"];
+    let int_ops_bool = ["less_than_integer", "less_than_equals_integer", "equals_integer"];
+    for k in ["3", "-3", "1", "0", "2", "18446744073709551616"] {
+        for op in int_ops_int.iter().chain(int_ops_bool.iter()) {
+            let src = format!(
+                "use aiken/builtin\n\npub fn f(x: Int, y: Int) {{\n  let a = builtin.{op}(x, {k})\n  let b = builtin.{op}(y, {k})\n  let c = builtin.{op}(x + y, {k})\n  let d = builtin.{op}({k}, x)\n  let e = builtin.{op}({k}, y)\n  let g = builtin.{op}({k}, x - y)\n  [a, b, c, d, e, g]\n}}\n"
+            );
+            out.push((format!("template/curry/{}/{}", op, k), src, int_args.clone()));
+        }
+        // the operators of the language, which the code generator lowers to the same builtins
+        for (name, op) in [("div", "/"), ("mod", "%"), ("sub", "-"), ("lt", "<"), ("le", "<="), ("gt", ">"), ("ge", ">=")] {
+            let src = format!(
+                "pub fn f(x: Int, y: Int) {{\n  let a = x {op} {k}\n  let b = y {op} {k}\n  let c = (x + y) {op} {k}\n  let d = {k} {op} x\n  let e = {k} {op} y\n  let g = {k} {op} (x - y)\n  [a, b, c, d, e, g]\n}}\n"
+            );
+            out.push((format!("template/curry-op/{}/{}", name, k), src, int_args.clone()));
+        }
+    }
+    let bs_args: Vec<Vec<PD>> = vec![
+        vec![bytes(b""), bytes(b"\x01")],
+        vec![bytes(b"ab"), bytes(b"b")],
+        vec![bytes(b"\xff\x00"), bytes(b"\xff")],
+        vec![bytes(b"abc"), bytes(b"abd")],
+    ];
+    for k in ["#\"\"", "#\"ab\"", "#\"6162\"", "#\"ff\""] {
+        for op in ["append_bytearray", "less_than_bytearray", "less_than_equals_bytearray", "equals_bytearray"] {
+            let src = format!(
+                "use aiken/builtin\n\npub fn f(x: ByteArray, y: ByteArray) {{\n  let a = builtin.{op}(x, {k})\n  let b = builtin.{op}(y, {k})\n  let c = builtin.{op}(builtin.append_bytearray(x, y), {k})\n  let d = builtin.{op}({k}, x)\n  let e = builtin.{op}({k}, y)\n  let g = builtin.{op}({k}, builtin.append_bytearray(y, x))\n  [a, b, c, d, e, g]\n}}\n"
+            );
+            out.push((format!("template/curry/{}/{}", op, k), src, bs_args.clone()));
+        }
+    }
+    for k in ["0", "1", "2", "-1", "255", "256"] {
+        for op in ["index_bytearray", "cons_bytearray"] {
+            let (ca, cb) = if op == "index_bytearray" { ("x", k) } else { (k, "x") };
+            let (da, db) = if op == "index_bytearray" { ("y", k) } else { (k, "y") };
+            let src = format!(
+                "use aiken/builtin\n\npub fn f(x: ByteArray, y: ByteArray) {{\n  let a = builtin.{op}({ca}, {cb})\n  let b = builtin.{op}({da}, {db})\n  let c = builtin.{op}({ca}, {cb})\n  let d = builtin.{op}({da}, {db})\n  (a, b, c, d)\n}}\n"
+            );
+            out.push((format!("template/curry/{}/{}", op, k), src, bs_args.clone()));
+        }
+        let src = format!(
+            "use aiken/builtin\n\npub fn f(x: ByteArray, y: ByteArray) {{\n  let a = builtin.slice_bytearray({k}, 1, x)\n  let b = builtin.slice_bytearray({k}, 1, y)\n  let c = builtin.slice_bytearray(1, {k}, x)\n  let d = builtin.slice_bytearray(1, {k}, y)\n  let e = builtin.slice_bytearray({k}, 1, builtin.append_bytearray(x, y))\n  let g = builtin.slice_bytearray(1, {k}, builtin.append_bytearray(x, y))\n  [a, b, c, d, e, g]\n}}\n"
+        );
+        out.push((format!("template/curry/slice_bytearray/{}", k), src, bs_args.clone()));
+    }
+    // Data constants cast back
+    let sel: Vec<Vec<PD>> = vec![vec![int(0)], vec![int(1)], vec![int(2)]];
+    let int_consts = ["0", "-1", "9223372036854775807", "-9223372036854775808", "18446744073709551615", "18446744073709551616", "-18446744073709551616", "-18446744073709551617", "-100000000000000000000000", "340282366920938463463374607431768211456"];
+    for (i, k) in int_consts.iter().enumerate() {
+        let k2 = int_consts[(i + 3) % int_consts.len()];
+        let src = format!(
+            "pub fn f(x: Int) {{\n  let d: Data = {k}\n  expect i: Int = d\n  let e: Data =\n    if x == 0 {{\n      {k}\n    }} else {{\n      {k2}\n    }}\n  expect j: Int = e\n  let l: Data = [{k}, {k2}]\n  expect m: List<Int> = l\n  [i, j, i - j, ..m]\n}}\n"
+        );
+        out.push((format!("template/cast/int/{}", k), src, sel.clone()));
+        let src = format!(
+            "pub fn f(x: Int) {{\n  let d: Data = Some({k})\n  expect Some(i): Option<Int> = d\n  let t: Data = ({k}, #\"ab\")\n  expect (a, b): (Int, ByteArray) = t\n  if x == 0 {{\n    i == {k} && a == {k} && b == #\"ab\"\n  }} else {{\n    i + a == {k} + {k}\n  }}\n}}\n"
+        );
+        out.push((format!("template/cast/nested/{}", k), src, sel.clone()));
+    }
+    for k in ["#\"\"", "#\"ab\"", "\"hello\""] {
+        let src = format!(
+            "pub fn f(x: Int) {{\n  let d: Data = {k}\n  expect b: ByteArray = d\n  let l: Data = [{k}, {k}]\n  expect m: List<ByteArray> = l\n  if x == 0 {{\n    [b, ..m]\n  }} else {{\n    m\n  }}\n}}\n"
+        );
+        out.push((format!("template/cast/bytes/{}", k), src, sel.clone()));
+    }
+    // wrong casts must keep failing
+    for (k, t) in [("1", "ByteArray"), ("#\"ab\"", "Int"), ("[1]", "Int"), ("1", "List<Int>"), ("Some(1)", "Int"), ("18446744073709551616", "ByteArray")] {
+        let src = format!("pub fn f(x: Int) {{\n  let d: Data = {k}\n  if x == 0 {{\n    expect _i: {t} = d\n    True\n  }} else {{\n    False\n  }}\n}}\n");
+        out.push((format!("template/cast/wrong/{}-as-{}", k, t), src, sel.clone()));
+    }
+    // single-use values under delayed branches and lambdas
+    for (name, expr) in [("div0", "1 / x"), ("fail", "if x == 3 {\n      fail\n    } else {\n      1 / x\n    }"), ("head", "builtin.head_list(xs)"), ("expect", "{\n      expect [h, ..] = xs\n      h\n    }")] {
+        let src = format!(
+            "use aiken/builtin\n\nfn pick(c: Bool, a: Int, b: Int) -> Int {{\n  if c {{\n    a\n  }} else {{\n    b\n  }}\n}}\n\npub fn f(x: Int) {{\n  let xs: List<Int> =\n    if x > 1 {{\n      [x]\n    }} else {{\n      []\n    }}\n  let v = {expr}\n  let w = pick(x > 0, 7, v)\n  let g = fn(u: Int) {{ u + v }}\n  if x > 5 {{\n    g(w)\n  }} else {{\n    w\n  }}\n}}\n"
+        );
+        out.push((format!("template/once/{}", name), src, vec![vec![int(0)], vec![int(1)], vec![int(2)], vec![int(6)], vec![int(-1)]]));
+    }
+    out
+}
+
+fn template_stream(rep: &mut Report, specs: &mut Vec<SpecReq>) {
+    let all = templates();
+    rep.count_n("template-sources", all.len() as u64);
+    let results = comp::par_map(all.len() as u64, 14, |i| {
+        let (label, src, argsets) = &all[i as usize];
+        let mut rep = Report::new("c02", "");
+        let mut specs = vec![];
+        for s in [comp::settings()[0].clone(), comp::settings()[2].clone()] {
+            let ch = match comp::check(src, s.1) {
+                Ok(c) => c,
+                Err(e) => {
+                    rep.count(if e.starts_with("panic") { "template-checker-panic" } else { "template-rejected-by-checker" });
+                    if rep.notes.len() < 3 {
+                        rep.notes.push(format!("{} not accepted: {}", label, short(&e)));
+                    }
+                    continue;
+                }
+            };
+            rep.count("template-accepted");
+            let key = format!("{}:{}", label, s.0);
+            let (post, pre) = comp::compile_keep_pre(&ch, "f", s.1);
+            let replay = json!({"source": src, "function": "f", "tracing": s.0, "origin": label});
+            let post = match post {
+                Ok(x) => x,
+                Err(msg) => {
+                    rep.count("compile-panic");
+                    optimiser_panic(&mut rep, &format!("{}:compile-panic", key), replay, &msg, pre.as_ref());
+                    continue;
+                }
+            };
+            let pre = match pre {
+                Some(p) => p,
+                None => continue,
+            };
+            rep.count("program-pairs");
+            for (ai, args) in argsets.iter().enumerate() {
+                let mut rp = replay.clone();
+                rp["arguments"] = json!(args.iter().map(|a| format!("{:?}", a)).collect::<Vec<_>>());
+                let before = rep.property_failures.len();
+                compare_pair(&mut rep, &mut specs, &key, rp, &pre, &post, args, ai == 0 && i % 7 == 0);
+                if rep.property_failures.len() > before {
+                    break; // one witness per (template, setting)
+                }
+            }
+        }
+        (rep, specs)
+    });
+    for (r, s) in results {
+        comp::merge(rep, r);
+        specs.extend(s);
+    }
+}
+
 fn ak_files(dir: &std::path::Path, out: &mut Vec<std::path::PathBuf>) {
     if let Ok(rd) = std::fs::read_dir(dir) {
         let mut entries: Vec<_> = rd.filter_map(|e| e.ok()).map(|e| e.path()).collect();
@@ -401,6 +566,9 @@ pub fn run(ctx: &Ctx) -> Report {
         }
     }
     rep.count(&format!("corpus-files-{}", files.len()));
+
+    // 1b. pass-directed templates with parameters
+    template_stream(&mut rep, &mut specs);
 
     // 2. repository sources that type-check standalone (examples/, benchmarks/)
     let mut repo_files = vec![];
